@@ -1,5 +1,8 @@
+pub mod c04;
 pub mod c12;
-pub mod streams;
 pub mod c13;
 pub mod c14;
 pub mod c15;
+pub mod c16;
+pub mod c17;
+pub mod streams;
